@@ -185,6 +185,12 @@ Theorem LexTables_keywords : gen_keywords = map (fun '(b, t) => (string_of_bytes
 Proof. reflexivity. Qed.
 Print Assumptions LexTables_keywords.
 
+(* the keys: a word is looked up in the keyword table in lower case (the model: map lower_ascii buf - ASCII letters, which is
+   all the table's keys contain), an operator as it is written *)
+Theorem LexTables_lookup_keys : gen_keyword_key = "strings.ToLower(buf.String())" /\ gen_operator_key = "buf.String()".
+Proof. split; reflexivity. Qed.
+Print Assumptions LexTables_lookup_keys.
+
 Theorem LexTables_operators : gen_operators = map (fun '(b, t) => (string_of_bytes b, ttype_name t)) operators.
 Proof. reflexivity. Qed.
 Print Assumptions LexTables_operators.
